@@ -146,6 +146,31 @@ def words_bounded(counters, first_n):
                if all(w.count(i) <= counters[i] for i in range(q)))
 
 
+def oracle_count(counters, first_n):
+    """Number of words of length first_n with symbol i used at most counters[i]
+    times, by an exponential-generating-function DP written independently of the
+    code under test (used only to size index ranges during case generation)."""
+    if first_n < 0:
+        return 0
+    # ways[k] = number of words of length k over the symbols seen so far
+    ways = [1] + [0] * first_n
+    for c in counters:
+        new = [0] * (first_n + 1)
+        for k in range(first_n + 1):
+            if ways[k]:
+                for v in range(0, min(c, first_n - k) + 1):
+                    new[k + v] += ways[k] * math.comb(k + v, v)
+        ways = new
+    return ways[first_n]
+
+
+def oracle_multinomial(counters):
+    n = math.factorial(sum(counters))
+    for x in counters:
+        n //= math.factorial(x)
+    return n
+
+
 def arrangements(kind, p):
     if kind == "radix":
         return set(itertools.product(*[range(s) for s in p[0]]))
@@ -233,6 +258,8 @@ def property_fails_real(kind, p):
     for j in range(len(want)):
         try:
             w = unrank(j)
+        except TypeError:
+            return "index %d does not yield an arrangement (a number was returned)" % j
         except Exception as e:  # noqa
             return "index %d raised %s" % (j, type(e).__name__)
         if not isinstance(w, tuple) or w not in want:
@@ -356,9 +383,7 @@ def exhaustive_cases(ctx):
             for fn in range(0, q * m + 2):
                 out.append(("count_pwc", (q, m, fn), True))
                 out.append(("recur_count", (q, m, fn, ()), True))
-                N = len(words_bounded([m] * q, fn)) if q * m <= 6 or fn <= 5 else None
-                if N is None:
-                    N = c.count_permutations_with_copies(q, m, fn)
+                N = oracle_count([m] * q, fn)
                 for j in idx_range(N):
                     out.append(("kprefix", (q, ("u", m), fn, j, ()), 0 <= j < N))
                     out.append(("session", (q, ("u", m), (("unrank", fn, j),)), 0 <= j < N))
@@ -415,7 +440,7 @@ def random_cases(ctx, count):
             out.append(("cpwc", (rng.randrange(N), q, m), True))
         elif kind == "multi_c":
             cs = tuple(rng.randint(0, 4) for _ in range(rng.randint(1, 12)))
-            N = c.count_remaining_permutations(list(cs))
+            N = oracle_multinomial(cs)
             out.append(("cpwvc", (rng.randrange(N), len(cs), cs), True))
         elif kind == "crp":
             cs = tuple(rng.randint(0, 9) for _ in range(rng.randint(0, 14)))
@@ -428,8 +453,8 @@ def random_cases(ctx, count):
             elif kind == "recur":
                 out.append(("recur_count", (q, m, fn, ()), True))
             else:
-                N = c.count_permutations_with_copies(q, m, fn)
-                j = rng.randrange(N) if rng.random() < 0.9 else rng.choice([N, N + 1, -1])
+                N = oracle_count([m] * q, fn)
+                j = rng.randrange(N) if (N > 0 and rng.random() < 0.9) else rng.choice([N, N + 1, -1])
                 out.append(("kprefix", (q, ("u", m), fn, j, ()), 0 <= j < N))
         else:
             cs = tuple(rng.randint(0, 4) for _ in range(rng.randint(1, 12)))
@@ -437,8 +462,8 @@ def random_cases(ctx, count):
             if kind == "count_c":
                 out.append(("count_pwvc", (len(cs), cs, fn), True))
             else:
-                N = c.count_permutations_with_varying_copies(len(cs), list(cs), fn)
-                j = rng.randrange(N) if rng.random() < 0.9 else rng.choice([N, N + 1, -1])
+                N = oracle_count(cs, fn)
+                j = rng.randrange(N) if (N > 0 and rng.random() < 0.9) else rng.choice([N, N + 1, -1])
                 out.append(("kprefix", (len(cs), ("c", cs), fn, j, ()), 0 <= j < N))
     # the branch for first_n >= 100 or q >= 100 of the count dispatcher
     for q, m, fn in [(100, 1, 2), (100, 1, 3), (101, 2, 3), (120, 1, 2), (2, 60, 100), (3, 40, 101)]:
@@ -466,7 +491,7 @@ def session_cases(ctx, count):
             if rng.random() < 0.4:
                 ops.append(("count", fn))
             else:
-                N = c.count_prefixes_of_permutations_with_copies(q, moc_real(mc), fn, c.PermutationMemo())
+                N = oracle_count(cs, fn)
                 r = rng.random()
                 j = rng.randrange(N) if (N > 0 and r < 0.85) else rng.choice([N, N + 1, -1])
                 ops.append(("unrank", fn, j))
@@ -494,7 +519,7 @@ def clean_cases(ctx):
         if work > 4000:
             continue
         out.append((cs, fn, None))
-        N = C().count_permutations_with_varying_copies(len(cs), list(cs), fn)
+        N = oracle_count(cs, fn)
         for _ in range(3):
             if N > 0:
                 out.append((cs, fn, rng.randrange(N)))
@@ -578,12 +603,15 @@ def run(ctx, res):
     lines = [sexp([Atom("cnt"), list(cs), fn]) if j is None else sexp([Atom("prefix_unrank"), list(cs), fn, j])
              for cs, fn, j in cl]
     for (cs, fn, j), line in zip(cl, ctx.model(lines)):
-        if j is None:
-            real = c.count_prefixes_of_permutations_with_copies(len(cs), list(cs), fn, c.PermutationMemo())
-            ok = line.strip() == str(real)
-        else:
-            real = c.compute_jth_prefix_of_permutations_with_copies(len(cs), list(cs), fn, j, c.PermutationMemo())
-            ok = isinstance(real, list) and parse_sexp(line) == [real]
+        try:
+            if j is None:
+                real = c.count_prefixes_of_permutations_with_copies(len(cs), list(cs), fn, c.PermutationMemo())
+                ok = line.strip() == str(real)
+            else:
+                real = c.compute_jth_prefix_of_permutations_with_copies(len(cs), list(cs), fn, j, c.PermutationMemo())
+                ok = isinstance(real, list) and parse_sexp(line) == [real]
+        except Exception as e:  # noqa
+            real, ok = ("err", type(e).__name__), False
         res.layer("L5-clean-recursion", ok)
         res.count(("clean", cs, fn, j))
         if not ok:
